@@ -78,6 +78,15 @@ let show_decoding o = match o with
 
 let sym_of (i : int) = match ss_of_index (n_of_int i) with Some s -> s | None -> failwith "bad symbol index"
 
+let cert_suffix (a : string array) : string =
+  if Array.length a > 7 && String.length a.(7) > 0 && a.(7).[0] = 'K' then
+    (match String.split_on_char ';' (String.sub a.(7) 1 (String.length a.(7) - 1)) with
+     | [p; c; d] ->
+       let prefix = if p = "N" then None else Some (n_of_int (int_of_string p)) in
+       Printf.sprintf " cert=%d" (b2i (d_certify prefix (nlist c) (nlist d)))
+     | _ -> " cert=?")
+  else ""
+
 let dispatch (op : string) (a : string array) : string =
   match op with
   | "sym_attrs" -> shown (d_sym_attrs (sym_of (int_of_string a.(0))))
@@ -136,14 +145,7 @@ let dispatch (op : string) (a : string array) : string =
     let eci = if a.(5) = "N" then None else Some (n_of_int (int_of_string a.(5))) in
     (match d_encode (nlist a.(0)) (nlist a.(1)) (n_of_int (int_of_string a.(2))) (a.(3) = "1") (a.(4) = "1") eci trace with
      | Ok ((s, dcw), cw) ->
-       let cert =
-         if Array.length a > 7 && String.length a.(7) > 0 && a.(7).[0] = 'K' then
-           (match String.split_on_char ';' (String.sub a.(7) 1 (String.length a.(7) - 1)) with
-            | [p; c; d] ->
-              let prefix = if p = "N" then None else Some (n_of_int (int_of_string p)) in
-              Printf.sprintf " cert=%d" (b2i (d_certify prefix (nlist c) (nlist d)))
-            | _ -> " cert=?")
-         else "" in
+       let cert = cert_suffix a in
        Printf.sprintf "ok %d %s %s%s" (int_of_n (variant_index s)) (shown dcw) (shown cw) cert
      | Err TooMuchOrIllegalData -> "err TooMuchOrIllegalData" | Err SymbolListEmpty -> "err SymbolListEmpty"
      | Panic PBadOracle -> "bad-oracle" | Panic _ -> "panic")
@@ -158,8 +160,8 @@ let dispatch (op : string) (a : string array) : string =
     let trace = if Array.length a > 6 then Some (parse_trace a.(6)) else None in
     let eci = if a.(5) = "N" then None else Some (n_of_int (int_of_string a.(5))) in
     (match d_rt (nlist a.(0)) (nlist a.(1)) (n_of_int (int_of_string a.(2))) (a.(3) = "1") (a.(4) = "1") eci trace with
-     | Ok (((s, dcw), d1), d2) -> Printf.sprintf "ok %d %s %s %s" (int_of_n (variant_index s)) (shown dcw)
-         (match d1 with Ok v -> "ok:" ^ shown v | Err e -> "err:" ^ dec_err_name e | Panic _ -> "panic") (show_decoding d2)
+     | Ok (((s, dcw), d1), d2) -> Printf.sprintf "ok %d %s %s %s%s" (int_of_n (variant_index s)) (shown dcw)
+         (match d1 with Ok v -> "ok:" ^ shown v | Err e -> "err:" ^ dec_err_name e | Panic _ -> "panic") (show_decoding d2) (cert_suffix a)
      | Err TooMuchOrIllegalData -> "err TooMuchOrIllegalData" | Err SymbolListEmpty -> "err SymbolListEmpty"
      | Panic PBadOracle -> "bad-oracle" | Panic _ -> "panic")
   | "str_rt" ->
